@@ -42,6 +42,19 @@ type c06Render struct {
 	// of the bytes (io.ErrShortWrite); "gen-panic" = the generator panics on
 	// its call number At.  The next render of the same wrapper is judged.
 	Fault *c06Fault `json:"fault,omitempty"`
+	// Inner: a re-entrant render of another table from inside the generator
+	Inner *c06Inner `json:"inner,omitempty"`
+}
+
+// c06Inner: on its call number At the generator of this render renders
+// ANOTHER table (its own shape, texts and generator) through ANOTHER html
+// wrapper with the same TemplateName, before returning.  Warm: that other
+// wrapper has already rendered once before the outer render starts.
+type c06Inner struct {
+	At     int        `json:"at"`
+	Table  TableSpec  `json:"table"`
+	Render *c06Render `json:"render"`
+	Warm   bool       `json:"warm,omitempty"`
 }
 
 type c06Fault struct {
@@ -159,6 +172,15 @@ func c06RandRender(r *RNG, nul bool) c06Render {
 	return rd
 }
 
+// sometimes the generator renders another table through another wrapper
+func c06MaybeInner(r *RNG, rd *c06Render, nul bool) {
+	if rd.Gen == nil || rd.Fault != nil || !r.Pct(12) {
+		return
+	}
+	ird := c06RandRender(r, nul)
+	rd.Inner = &c06Inner{At: r.Intn(4), Table: randTable(r, 3, 3, c06Text(nul), []int{0, 0, 1, 2, 3}), Render: &ird, Warm: r.Bool()}
+}
+
 func c06Renders(r *RNG, nul bool) []c06Render {
 	n := 2
 	if r.Pct(15) {
@@ -170,6 +192,9 @@ func c06Renders(r *RNG, nul bool) []c06Render {
 	}
 	if r.Pct(20) { // identical second render: pure cache path
 		out[1] = out[0]
+	}
+	for i := range out {
+		c06MaybeInner(r, &out[i], nul)
 	}
 	if r.Pct(20) { // a render that fails, between two judged ones
 		f := c06RandRender(r, nul)
@@ -374,6 +399,46 @@ func c06Gen_(r *RNG, tier string) []json.RawMessage {
 				ts.Stages, ts.StageFaults = []int{0}, true
 			}
 			add(c06Spec{Table: ts, Renders: rs})
+		}
+	}
+	// (a7) re-entrant renders: on its call number At the outer table's
+	// generator renders ANOTHER table (other shape, other texts, its own
+	// generator or none) through ANOTHER wrapper of the same TemplateName; the
+	// outer output and calls must be those of the outer table alone, the inner
+	// output those of the inner table
+	for nOut := 0; nOut <= 3; nOut++ {
+		for at := 0; at <= nOut; at++ {
+			for nIn := 0; nIn <= 2; nIn++ {
+				hs := []ItemSpec{Str("OUTER"), Str("o<2>")}
+				ots := TableSpec{Header: &hs}
+				for i := 0; i < nOut; i++ {
+					ots.Rows = append(ots.Rows, RowSpec{How: i % 4, Sep: nOut == 3 && i == 1, Cells: []ItemSpec{Str(fmt.Sprintf("o%d", i)), c06Text(false)(r)}})
+				}
+				ihs := []ItemSpec{Str("inner&")}
+				its := TableSpec{Header: &ihs}
+				if (nOut+at+nIn)%4 == 3 {
+					its.Header = nil
+				}
+				for i := 0; i < nIn; i++ {
+					its.Rows = append(its.Rows, RowSpec{How: (i + 1) % 4, Cells: []ItemSpec{Str(fmt.Sprintf("i%d", i)), c06Text(false)(r), Str("'x")}})
+				}
+				ird := c06Render{Id: []byte("in"), Caption: []byte("inner caption"), Gen: &c06Gen{Vals: [][]byte{[]byte("I")}}}
+				if (at+nIn)%3 == 2 {
+					ird.Gen = nil
+				}
+				in := &c06Inner{At: at, Table: its, Render: &ird, Warm: (nOut+nIn)%2 == 1}
+				in2 := *in
+				rs := []c06Render{
+					{Class: []byte("out"), Gen: &c06Gen{Vals: [][]byte{[]byte("A"), []byte("B")}}, Inner: in},
+					{Gen: &c06Gen{Vals: [][]byte{[]byte("C")}}, Inner: &in2},
+					{},
+				}
+				sp := c06Spec{Table: ots, Renders: rs}
+				if (nOut+at)%3 == 1 {
+					sp.TemplateName = "t"
+				}
+				add(sp)
+			}
 		}
 	}
 	// (a6) zero-value rows appended between two renders
@@ -638,6 +703,10 @@ type c06Rec struct {
 	calls []int
 	rets  [][]byte
 	out   []byte // bytes returned by Render, or accepted by RenderTo's writer
+	// a render of ANOTHER table through ANOTHER wrapper made from inside this
+	// render's generator (re-entrant), and that wrapper's record of it
+	innerOut *Outcome
+	innerRec *c06Rec
 }
 
 // c06Wrapper is the ONE html wrapper of a case and the generator bookkeeping
@@ -650,15 +719,23 @@ type c06Wrapper struct {
 	panicAt int // the generator panics on its call number panicAt (-1 never)
 }
 
-func (w *c06Wrapper) begin() {
-	w.cur = &c06Rec{}
-	w.hist = append(w.hist, w.cur)
+// begin opens the record of one Render / RenderTo call; the returned function
+// closes it.  Calls nest (TableSpec.Reenter renders this same wrapper again
+// from a render-time callback of the outer render): when the nested call is
+// over, the generator calls of the outer render go to the outer record again.
+func (w *c06Wrapper) begin() (rec *c06Rec, end func()) {
+	prev := w.cur
+	rec = &c06Rec{}
+	w.cur = rec
+	w.hist = append(w.hist, rec)
+	return rec, func() { w.cur = prev }
 }
 
 func (w *c06Wrapper) Render() (string, error) {
-	w.begin()
+	rec, end := w.begin()
+	defer end()
 	s, err := w.ht.Render()
-	w.cur.out = []byte(s)
+	rec.out = []byte(s)
 	return s, err
 }
 
@@ -676,8 +753,9 @@ func (t *c06Tee) Write(p []byte) (int, error) {
 }
 
 func (w *c06Wrapper) RenderTo(x io.Writer) error {
-	w.begin()
-	return w.ht.RenderTo(&c06Tee{x, w.cur})
+	rec, end := w.begin()
+	defer end()
+	return w.ht.RenderTo(&c06Tee{x, rec})
 }
 
 // the record of the call that produced outcome o (BuildRenderW may run a
@@ -707,9 +785,31 @@ func (w *c06Wrapper) configure(rd c06Render) {
 		return
 	}
 	vals := rd.Gen.Vals
+	// the other table and its own wrapper, for a re-entrant render
+	var iw *c06Wrapper
+	innerAt := -1
+	if in := rd.Inner; in != nil && in.Render != nil {
+		it := tabular.New()
+		in.Table.Build(it)
+		iw = &c06Wrapper{ht: html.Wrap(it), panicAt: -1}
+		iw.ht.TemplateName = w.ht.TemplateName
+		ird := *in.Render
+		ird.Inner, ird.Fault = nil, nil
+		iw.configure(ird)
+		if in.Warm {
+			capture(iw.Render)
+		}
+		innerAt = in.At
+	}
 	w.ht.SetRowClassGenerator(func(n int, ctx interface{}) template.HTMLAttr {
 		if w.panicAt >= 0 && len(w.cur.calls) == w.panicAt {
 			panic("c06: scripted panic of the row-class generator")
+		}
+		if iw != nil && len(w.cur.calls) == innerAt {
+			// in the middle of this table's render, render the other one
+			cur := w.cur
+			o := capture(iw.Render)
+			cur.innerOut, cur.innerRec = &o, iw.match(o)
 		}
 		var ret []byte
 		if len(vals) > 0 {
@@ -848,6 +948,7 @@ func c06Run(spec json.RawMessage) CaseOut {
 	size := s.Table.Size()
 	okAll, callsOK := true, true
 	want := c06Positional(v)
+	var innerTerms []string
 	note := func(k int, rd c06Render, o Outcome, rec *c06Rec) {
 		term, ro := c06RenderTerm(rd, o, rec, crng)
 		g := groups[len(groups)-1]
@@ -861,6 +962,22 @@ func c06Run(spec json.RawMessage) CaseOut {
 			okAll = false
 		} else if rd.Gen != nil && !intsEqual(rec.calls, want) {
 			callsOK = false
+		}
+		if rec.innerOut != nil && rd.Inner != nil {
+			// the other table, rendered re-entrantly, is judged on its own
+			iv := rd.Inner.Table.SpecView()
+			ird := *rd.Inner.Render
+			iterm, iro := c06RenderTerm(ird, *rec.innerOut, rec.innerRec, crng)
+			innerTerms = append(innerTerms, c06CaseTerm(iv.Coq(true), []string{iterm}))
+			obs = append(obs, map[string]interface{}{"reentrant_render_of_other_table": iro, "from_generator_call": rd.Inner.At})
+			tags = append(tags, "reentrant-render-from-generator")
+			if rec.innerOut.Kind != "ok" {
+				okAll = false
+			} else if ird.Gen != nil && !intsEqual(rec.innerRec.calls, c06Positional(iv)) {
+				callsOK = false
+			}
+			all = append(all, c06ViewTexts(iv)...)
+			size += 3 + rd.Inner.Table.Size() + rd.Inner.At
 		}
 		all = append(all, rec.rets...)
 		all = append(all, rd.Id, rd.Class, rd.Caption)
@@ -1020,6 +1137,9 @@ func c06Run(spec json.RawMessage) CaseOut {
 	if s.Table.FaultAt > 0 {
 		tags = append(tags, "single-write-fault-side-run")
 	}
+	if s.Table.Reenter > 0 {
+		tags = append(tags, "same-wrapper-reentered-from-render-callback")
+	}
 	cls := c06Classes(all...)
 	tags = append(tags, cls...)
 	tags = append(tags, fmt.Sprintf("renders=%d", len(s.Renders)))
@@ -1041,6 +1161,7 @@ func c06Run(spec json.RawMessage) CaseOut {
 	if otherTerm != "" {
 		terms = append(terms, otherTerm)
 	}
+	terms = append(terms, innerTerms...)
 	term := terms[0]
 	for _, x := range terms[1:] {
 		term = "(CBoth " + term + "\n  " + x + ")"
@@ -1114,6 +1235,28 @@ func c06Shrink(spec json.RawMessage) []json.RawMessage {
 		c := clone()
 		if f(&c.Table) {
 			emit(c)
+		}
+	}
+	for i := range s.Renders {
+		if in := s.Renders[i].Inner; in != nil {
+			c := clone()
+			c.Renders[i].Inner = nil
+			emit(c)
+			if in.At > 0 {
+				c := clone()
+				c.Renders[i].Inner.At--
+				emit(c)
+			}
+			if in.Warm {
+				c := clone()
+				c.Renders[i].Inner.Warm = false
+				emit(c)
+			}
+			for _, ts := range shrinkTable(in.Table) {
+				c := clone()
+				c.Renders[i].Inner.Table = ts
+				emit(c)
+			}
 		}
 	}
 	for i := range s.Renders {
@@ -1201,7 +1344,7 @@ func init() {
 		CaseType: "c06_case",
 		CaseFn:   "C06_case",
 		ModelFn:  "C06_model",
-		Rule: "the output is judged against the view computed from the SPEC (never read back from the table under test); tables built through the public API (incl. a second AddHeaders, cells added to a row long after it was attached, a pre-built row attached twice, rows also added to a second table at another position between two renders, intermediate renders of the partial table through the one reused wrapper - some into failing writers -, a cell text changed in place (item mutated, Cell.Update through CellAt/Headers, same cell count) between two renders, the final render through RenderTo into a non-buffer writer, the caller scribbling over its AllRows() copy; renders that FAIL - writer error or short write on its first / a later call, generator panicking on its first / a later call - followed by judged renders of the same wrapper; zero-value rows appended between renders, expected positionally as rows without cells), wrapped once by html.Wrap and rendered 2-3 times from that wrapper with Id/Class/Caption/TemplateName and the row-class generator (absent / returning \"\" / returning hostile strings as template.HTMLAttr) changed between renders; " +
+		Rule: "the output is judged against the view computed from the SPEC (never read back from the table under test); tables built through the public API (incl. a second AddHeaders, cells added to a row long after it was attached, a pre-built row attached twice, rows also added to a second table at another position between two renders, intermediate renders of the partial table through the one reused wrapper - some into failing writers -, a cell text changed in place (item mutated, Cell.Update through CellAt/Headers, same cell count) between two renders, the final render through RenderTo into a non-buffer writer, the caller scribbling over its AllRows() copy; renders that FAIL - writer error or short write on its first / a later call, generator panicking on its first / a later call - followed by judged renders of the same wrapper; zero-value rows appended between renders, expected positionally as rows without cells; re-entrant renders: the generator, on its k-th call, renders another table of another shape through another wrapper of the same TemplateName - both outputs and both call lists are judged, each against its own table), wrapped once by html.Wrap and rendered 2-3 times from that wrapper with Id/Class/Caption/TemplateName and the row-class generator (absent / returning \"\" / returning hostile strings as template.HTMLAttr) changed between renders; " +
 			"every shape with header in {none,0,1,2 cells} and up to 3 rows over {separator,0,1,2 cells}; every single byte value 0..255, every pair over 12 hostile ASCII bytes and every hostile atom, each in cell, header, caption, id, class and generator-value position; " +
 			"random tables to 5x5 with texts from a markup-hostile alphabet (< > \" ' & + = / space LF backtick, entity look-alikes, tag text, comment text, template syntax, invalid UTF-8), NUL in a separate stream judged against U+FFFD; " +
 			"each accepted output is also corrupted (dropped '>', injected tag, unescaped / truncated entity, added attribute, truncated document, stray text) and the Coq tokenizer must refuse every corruption; the Coq entity decoder is compared with html.UnescapeString / html.EscapeString / template.HTMLEscapeString; " +
